@@ -40,6 +40,12 @@ def run(ctx):
     if accepted and not ctx.violations:
         pc.binding_demo(ctx, accepted)
 
+    # 5. the pool's own housekeeping goroutine on its own ticker (everything above drives the tick body through the hook)
+    pc.real_loop(ctx, 1 if q else 3)
+    if ctx.cov.get("hook_drift") and not ctx.violations:
+        raise Infra("VerifWash (the hook's copy of one housekeeping tick) and the real loop disagree although the real loop "
+                    "satisfies the oracles: the hook drifted: %s" % ctx.cov["hook_drift"][:2])
+
     if ctx.cov.get("flow_mismatches") and not ctx.violations:
         raise Infra("replayed wash took another path than the model although no observable differs (spec drift): %s"
                     % ctx.cov["flow_mismatches"][:2])
@@ -69,16 +75,39 @@ def run(ctx):
             drops[k] = drops.get(k, 0) + v
     ctx.cov["add_verdicts"] = verdicts
     ctx.cov["wash_drop_reasons"] = drops
+    # branches that must have been taken for the run to mean something (vacuity control)
+    counts = {}
+    for s in stats:
+        for k, v in (s.get("counts") or {}).items():
+            counts[k] = counts.get(k, 0) + v
+    ctx.cov["branch_counters"] = counts
+    ctx.cov["free_runs_with_overlap"] = sum(1 for s in stats if s["mode"] == "free" and s["midWashOps"] > 0)
+    required = ["displaced", "errortrim", "promote_miss", "add_dup", "fill_dup", "remove_miss", "idguard_refusals",
+                "sameid_copooled", "eval_window_removes", "packer_blocks", "packer_adopted", "packer_removes"]
+    need_v = ["ok", "full", "nonexecfull", "notexec", "payer", "quota", "dquota", "rejected:expired", "rejected:inadmissible",
+              "rejected:settled", "rejected:unpayable", "rejected:depreverted"]
+    need_d = ["blocked", "depreverted", "expired", "inadmissible", "outlived", "settled", "unpayable", "unpayable-overall"]
+    missing = [k for k in required if counts.get(k, 0) == 0] + ["verdict " + k for k in need_v if verdicts.get(k, 0) == 0] + \
+              ["drop " + k for k in need_d if drops.get(k, 0) == 0]
+    if not any(k.startswith("adopt_cum_refused:") for k in counts):
+        missing.append("adopt_cum_refused:*")
+    if ctx.cov["free_runs_with_overlap"] == 0:
+        missing.append("free_runs_with_overlap")
+    ctx.cov["branches_never_taken"] = missing
+    if missing and not q and not ctx.violations:
+        raise Infra("vacuity: these branches were never taken in a thorough run: %s" % missing)
     ctx.cov["runs_over_limit"] = sum(1 for s in stats if s["maxLen"] > s["limit"])
     ctx.cov["exhaustive"] = False
     ctx.assumptions += [
         "hashes / signatures are injective oracles; tx ids, object identities, times added are logged facts",
         "amounts are compared in units of 10^16 wei: the drivers only create costs that are multiples of it (gas multiple of 1000, "
-        "prices multiples of 10^13; checked at run time) and floor(energy/unit); the base fee stays at its initial value (small blocks)",
+        "prices multiples of 10^13; checked at run time) and floor(energy/unit); the base fee is the initial one except in the basefee "
+        "scenario, where filler blocks move it to exactly 1.01x and back (costs of head-room txs are listed per base fee)",
         "Evaluate is transcribed for: expiry, block-ref window, tx type vs GALACTICA, known tx, dependency, payer energy; "
         "sponsorship/credit (prototype) payers, gas above the block limit and unsupported features are not generated",
         "sync status and lifetime depend on the wall clock: the genesis launch time places the heads, MaxLifetime is 1h or 1ns; "
-        "a run whose sync status would flip during the run is discarded as a harness error",
+        "a single run whose logged sync status no longer holds at its end (slow machine) is discarded and counted "
+        "(runs_discarded_slow): it is neither evidence nor a verdict",
         "free-running traces: the lock-free prefix of add (pool size, published list) is not linearised, those verdicts are accepted as reported",
         "exhaustive only inside the MCPool_*.cfg bounds; larger interleavings are sampled (seeded)",
         "the evict step of wash removes by hash: a re-added object of the same tx can be evicted on its predecessor's verdict; the "
